@@ -81,7 +81,7 @@ CLAIMED = {
             "implementation: every fault site of the C13 menu (writes included) and every failing read of the data source leaves the four lists empty and a follow-up life cycle (store, delete, store, delete of the pid) returns; schedules of C07/C12 scenarios, a complete walk over the orders of the synchronisation steps of the wake-up / lock-order families, a preemption-bounded walk inside critical sections, and random 3-4 thread pools of mixed object/metadata calls complete with nothing locked.",
             "DESIGN.md section 6 C08, 12.2", "a thread blocked inside the kernel, a dead Manager process; Condition.notify() wakes at least one waiter if any waits"),
     "C12": ("Coq proof: reflective exhaustive exploration of all schedules of every metadata scenario by the proved explorer; reader clause as a separate boolean; P-sched correspondence",
-            "general: one_doc_writers_linearizable - any number of store_metadata / delete_metadata(pid, format) calls on one document are linearizable under every schedule, in lock-acquisition order (OneDoc.v); one_doc_writers_readers_linearizable / readers_never_partial - any number of store_metadata and retrieve_metadata calls on one document, every schedule: linearizable with each writer at its rename and each reader at its read, and a reader returns not-found or one COMPLETE version (OneDocReaders.v); one_doc_writers_readers_deleters_linearizable / readers_never_partial_del / document_never_partial_del - the same with delete_metadata(pid, format) calls in the pool, each delete at its remove, a reader's FileNotFoundError read as the not-found ValueError (LinNF.nf_norm_one, nothing else relaxed), the document at every moment the start document, a complete stored version or absent (OneDocDel.v); gindep_linearizable / meta_isolation for pools on different documents (IndepMeta.v); menus: lin_pairs: 275 pairs and 414 triples from 5 start states, every schedule; the 9 pairs / 54 triples of known12 are exactly retrieve_metadata racing a delete (FileNotFoundError where the sequential run says ValueError - both 'not found'), "
+            "general: one_doc_writers_linearizable - any number of store_metadata / delete_metadata(pid, format) calls on one document are linearizable under every schedule, in lock-acquisition order (OneDoc.v); one_doc_writers_readers_linearizable / readers_never_partial - any number of store_metadata and retrieve_metadata calls on one document, every schedule: linearizable with each writer at its rename and each reader at its read, and a reader returns not-found or one COMPLETE version (OneDocReaders.v); one_doc_writers_readers_deleters_linearizable / readers_never_partial_del / document_never_partial_del - the same with delete_metadata(pid, format) calls in the pool, each delete at its remove, a reader's FileNotFoundError read as the not-found ValueError (LinNF.nf_norm_one, nothing else relaxed), the document at every moment the start document, a complete stored version or absent (OneDocDel.v); one_pid_delete_readers_linearizable_partial - ONE delete of a pid (delete_metadata(pid) for all formats, which handles the documents one at a time, or delete_metadata(pid, format), or delete_object(pid)) against any number of retrieve_metadata calls on any documents of that pid, every schedule: final world = the delete run alone, outcomes and world those of the order [readers that returned a document or whose document was absent at the start; the delete; readers that found their document gone] and metadata_never_partial_any_pool - ANY pool of API calls, every reached configuration: every metadata document is a complete supplied version and every returned retrieve_metadata has a not-found error or the complete content of a supplied version of its document (OnePidMeta.v; linearizability PARTIAL - pools mixing stores with whole-pid deletes over several documents are proved for pairs, triples and the 308 quadruples of OnePidQuads.v only; model sweep of all 336 such quadruples: no non-linearizable final configuration); gindep_linearizable / meta_isolation for pools on different documents (IndepMeta.v); menus: lin_pairs: 275 pairs and 414 triples from 5 start states, every schedule; the 9 pairs / 54 triples of known12 are exactly retrieve_metadata racing a delete (FileNotFoundError where the sequential run says ValueError - both 'not found'), "
             "proved linearizable with the two classes identified (LinNF.v); reader never sees a partial document on ANY scenario; witness schedules replayed on the implementation, random schedules judged against its sequential runs.",
             "DESIGN.md section 6 C12, 12.3", "a reader racing the bytes of one write(2); condition variables as for C07"),
     "C16": ("Coq proof: mode selection and creation of the cross-process primitives (Config.v), plus the C05/C08 theorems of the single program model; P-seq and P-sched correspondence run through the multiprocessing code paths; forked-worker search",
